@@ -177,3 +177,185 @@ theorem publishPercentiles_rel {a b : AggState} (h : StRel a b) : StRel (publish
   exact publish_groups_rel h.aggs h
 
 end Sqlgrep.Iter
+
+namespace Sqlgrep.Iter
+open Sqlgrep
+
+/-! ### results read the inner maps by lookup only -/
+
+theorem cellOf_rel (O : Oracles) (q : AggStmt) (idx : Nat) (item : AggItem) (key : List Value)
+    {s1 s2 : List (Nat × Value)} (h : SubRel s1 s2) : cellOf O q idx item key s1 = cellOf O q idx item key s2 := by
+  unfold cellOf
+  rw [h.1 idx]
+
+theorem rowOf_rel (O : Oracles) (q : AggStmt) (key : List Value) {s1 s2 : List (Nat × Value)} (h : SubRel s1 s2)
+    (items : List (Nat × AggItem)) : rowOf O q key s1 items = rowOf O q key s2 items := by
+  induction items with
+  | nil => rfl
+  | cons p rest ih =>
+    obtain ⟨i, item⟩ := p
+    unfold rowOf
+    rw [cellOf_rel O q i item key h, ih]
+
+theorem acceptGroup_rel (O : Oracles) (q : AggStmt) (having : Expr) (key : List Value) {s1 s2 : List (Nat × Value)}
+    (h : SubRel s1 s2) : acceptGroup O q having key s1 = acceptGroup O q having key s2 := by
+  unfold acceptGroup
+  have : ∀ j, alGet s1 j = alGet s2 j := h.1
+  simp only [this]
+
+theorem resultRows_rel (O : Oracles) (q : AggStmt) {v1 v2 : GroupMap Value} (h : GmEq v1 v2) (seen : List (List Value)) :
+    resultRows O q v1 seen = resultRows O q v2 seen := by
+  induction h generalizing seen with
+  | nil => rfl
+  | @cons k s1 s2 r1 r2 hs _ ih =>
+    unfold resultRows
+    rw [rowOf_rel O q k hs]
+    have ha : ∀ hv, acceptGroup O q hv k s1 = acceptGroup O q hv k s2 := fun hv => acceptGroup_rel O q hv k hs
+    simp only [ha, ih]
+
+theorem checkRows_rel (O : Oracles) (q : AggStmt) {v1 v2 : GroupMap Value} (h : GmEq v1 v2) (u : Unit) :
+    (v1.foldlM (fun (_ : Unit) (g : List Value × List (Nat × Value)) => do
+        let _ ← rowOf O q g.1 g.2 (enumFrom 0 q.items)
+        pure ()) u : Outcome Unit) =
+    (v2.foldlM (fun (_ : Unit) (g : List Value × List (Nat × Value)) => do
+        let _ ← rowOf O q g.1 g.2 (enumFrom 0 q.items)
+        pure ()) u : Outcome Unit) := by
+  induction h generalizing u with
+  | nil => rfl
+  | @cons k s1 s2 r1 r2 hs _ ih =>
+    simp only [List.foldlM_cons]
+    rw [rowOf_rel O q k hs]
+    congr 1
+    funext u'
+    exact ih u'
+
+def ResRel (p1 p2 : AggState × RowOut) : Prop := StRel p1.1 p2.1 ∧ p1.2 = p2.2
+
+theorem aggResult_rel (O : Oracles) (q : AggStmt) {a b : AggState} (h : StRel a b) :
+    ORel ResRel (aggResult O q a) (aggResult O q b) := by
+  have hp := publishPercentiles_rel h
+  unfold aggResult
+  simp only
+  have e1 := checkRows_rel O q hp.vals ()
+  have e2 := resultRows_rel O q hp.vals []
+  refine ORel.bind (R := Eq) ?_ (fun _ _ _ => ?_)
+  · have : ∀ x y : Outcome Unit, x = y → ORel Eq x y := fun x y e => e ▸ ORel.refl x
+    exact this _ _ e1
+  · rw [e2]
+    exact ORel.bind (ORel.refl _) (fun rows rows' e => by subst e; exact ⟨hp, rfl⟩)
+
+theorem finalResult_rel (O : Oracles) (q : AggStmt) {e1 e2 : EngineState} (h : StRel e1.agg e2.agg) :
+    finalResult O q e1 = finalResult O q e2 := by
+  unfold finalResult
+  apply ORel.eq
+  refine ORel.bind (aggResult_rel O q h) (fun p p' hp => ?_)
+  obtain ⟨_, o⟩ := p
+  obtain ⟨_, o'⟩ := p'
+  have : o = o' := hp.2
+  subst this
+  exact ORel.refl _
+
+/-! ### the engine -/
+
+structure ERel (a b : EngineState) : Prop where
+  seen : a.seen = b.seen
+  agg : StRel a.agg b.agg
+  numOut : a.numOut = b.numOut
+
+def LineRel (p1 p2 : EngineState × LineOut) : Prop := ERel p1.1 p2.1 ∧ p1.2 = p2.2
+
+theorem updateLimit_rel (isSelect : Bool) (limit : Option Nat) {a b : EngineState} (h : ERel a b) (r : Option RowOut) :
+    LineRel (updateLimit isSelect limit a r) (updateLimit isSelect limit b r) := by
+  unfold updateLimit
+  simp only [h.numOut]
+  exact ⟨⟨h.seen, h.agg, rfl⟩, rfl⟩
+
+theorem aggEnvs_rel (O : Oracles) (q : AggStmt) (envs : List (Env × List String)) {a b : AggState} (h : StRel a b) (any : Bool) :
+    ORel PairRel (aggEnvs O q envs a any) (aggEnvs O q envs b any) := by
+  induction envs generalizing a b any with
+  | nil => exact ⟨h, rfl⟩
+  | cons p rest ih =>
+    obtain ⟨env, ks⟩ := p
+    unfold aggEnvs
+    refine ORel.bind (aggUpdateRow_rel O q env h) (fun p p' hp => ?_)
+    obtain ⟨s, u⟩ := p
+    obtain ⟨s', u'⟩ := p'
+    have : u = u' := hp.2
+    subst this
+    exact ih hp.1 _
+
+def GoRel (p1 p2 : AggState × Option RowOut) : Prop := StRel p1.1 p2.1 ∧ p1.2 = p2.2
+
+theorem executeLine_go_rel (O : Oracles) (q : AggStmt) (envs : List (Env × List String)) {a b : AggState} (h : StRel a b)
+    (acc : Option RowOut) : ORel GoRel (executeLine.go O q envs a acc) (executeLine.go O q envs b acc) := by
+  induction envs generalizing a b acc with
+  | nil => exact ⟨h, rfl⟩
+  | cons p rest ih =>
+    obtain ⟨env, ks⟩ := p
+    unfold executeLine.go
+    refine ORel.bind (aggUpdateRow_rel O q env h) (fun p p' hp => ?_)
+    obtain ⟨s, u⟩ := p
+    obtain ⟨s', u'⟩ := p'
+    have : u = u' := hp.2
+    subst this
+    cases u with
+    | false => exact ih hp.1 acc
+    | true =>
+      simp only [if_true]
+      refine ORel.bind (aggResult_rel O q hp.1) (fun r r' hr => ?_)
+      obtain ⟨t, out⟩ := r
+      obtain ⟨t', out'⟩ := r'
+      have : out = out' := hr.2
+      subst this
+      exact ih hr.1 _
+
+theorem executeLine_rel (O : Oracles) (qy : Query) (idx : JoinIndex) (w : Bool) {a b : EngineState} (h : ERel a b) (l : Line) :
+    ORel LineRel (executeLine O qy idx w a l) (executeLine O qy idx w b l) := by
+  unfold executeLine
+  cases qy.stmt with
+  | select q =>
+    simp only
+    by_cases hr : anyResult l.row = true
+    · simp only [hr, Bool.not_true, Bool.false_eq_true, if_false]
+      refine ORel.bind (ORel.refl _) (fun envs envs' e => ?_)
+      subst e
+      rw [h.seen]
+      refine ORel.bind (ORel.refl _) (fun p p' e => ?_)
+      subst e
+      have e : ERel { a with seen := p.1 } { b with seen := p.1 } := ⟨rfl, h.agg, h.numOut⟩
+      exact updateLimit_rel true q.limit e _
+    · have : anyResult l.row = false := by simpa using hr
+      simp only [this, Bool.not_false, if_true]
+      exact updateLimit_rel true q.limit h none
+  | aggregate q =>
+    simp only
+    by_cases hr : anyResult l.row = true
+    · simp only [hr, Bool.not_true, Bool.false_eq_true, if_false]
+      refine ORel.bind (ORel.refl _) (fun envs envs' e => ?_)
+      subst e
+      cases w with
+      | true =>
+        simp only [if_true]
+        refine ORel.bind (executeLine_go_rel O q envs h.agg none) (fun p p' hp => ?_)
+        obtain ⟨s, r⟩ := p
+        obtain ⟨s', r'⟩ := p'
+        have : r = r' := hp.2
+        subst this
+        have e : ERel { a with agg := s } { b with agg := s' } := ⟨h.seen, hp.1, h.numOut⟩
+        exact updateLimit_rel false q.limit e _
+      | false =>
+        simp only [Bool.false_eq_true, if_false]
+        refine ORel.bind (aggEnvs_rel O q envs h.agg false) (fun p p' hp => ?_)
+        have e : ERel { a with agg := p.1 } { b with agg := p'.1 } := ⟨h.seen, hp.1, h.numOut⟩
+        exact ⟨e, rfl⟩
+    · have : anyResult l.row = false := by simpa using hr
+      simp only [this, Bool.not_false, if_true]
+      cases w with
+      | true => exact updateLimit_rel false q.limit h none
+      | false => exact ⟨h, rfl⟩
+
+theorem reachedLimit_rel (qy : Query) {a b : EngineState} (h : ERel a b) : reachedLimit qy a = reachedLimit qy b := by
+  unfold reachedLimit
+  rw [h.numOut]
+
+end Sqlgrep.Iter
